@@ -352,7 +352,48 @@ fn raw_random(rng: &mut Rng) -> Vec<u8> {
 
 /// Draw one session under `mix`.  Pictures are consistent with what each
 /// decoder has seen so far unless an input kind says otherwise.
+/// A rare session class: a few VERY large pictures (8-17 megasamples) on one
+/// Sorenson decoder, with the session's memory screen raised accordingly.  They fit
+/// in memory, so the properties cover them; they cost ~0.1-0.5 s each.
+fn gen_large_session(rng: &mut Rng) -> Session {
+    let mut s = Session { note: String::new(), pics: Vec::new(), events: Vec::new(), max_chunk: 0, screen: 1 << 26 };
+    let opts = 1 | ((rng.below(2) as u8) << 1);
+    let mut cfg = GenCfg::draw(rng, &[0, 1]);
+    cfg.density = 0;
+    cfg.stuff16 = 0;
+    cfg.pei16 = 0;
+    cfg.mb_weights = [60, 2, 1, 1, 1, 0, 1];
+    let (w, h) = *rng.pick(&[(4097u16, 4097u16), (5000, 1000), (8192, 600), (600, 8192), (65535, 128), (128, 65535), (3001, 3001)]);
+    let version = if cfg.flavour == 1 { 1 } else { 0 };
+    let fl = Flavour::Sorenson { version, size_code: 1 };
+    s.events.push(Ev::New { d: 0, opts });
+    let mut push = |s: &mut Session, p: PlanPic| {
+        let len = p.bytes.len();
+        s.pics.push(p);
+        let pi = s.pics.len() - 1;
+        s.events.push(Ev::Reader { d: 0 });
+        s.events.push(Ev::Feed { d: 0, pic: pi, from: 0, to: len });
+        s.events.push(Ev::Decode { d: 0 });
+    };
+    let i = gen_picture(rng, &cfg, fl.clone(), PType::I, w, h, 1);
+    push(&mut s, PlanPic::from_spec(i, vec![], "valid picture (very large)").0);
+    // a predicted picture: mostly not coded, possibly truncated or corrupted
+    let p = gen_picture(rng, &cfg, fl.clone(), PType::P, w, h, 2);
+    let (bytes, m) = encode(&p);
+    let transit = match rng.below(3) {
+        0 => vec![],
+        1 => vec![Transit::Truncate { len: (m.header_end / 8 + 1) + rng.usize(bytes.len() / 2 + 1) }],
+        _ => vec![Transit::draw(rng, bytes.len(), m.header_end)],
+    };
+    push(&mut s, PlanPic::from_spec(p, transit, "valid picture through transit faults").0);
+    s.note = format!("large session: {w}x{h}, {} pictures", s.pics.len());
+    s
+}
+
 pub fn gen_session(rng: &mut Rng, mix: &Mix) -> Session {
+    if mix.max_events >= 14 && rng.chance(1, 4000) {
+        return gen_large_session(rng); // thorough tiers only
+    }
     let ndec = 1 + rng.weighted(&[6, 3, 1][..mix.max_decoders.min(3)]);
     let mut s = Session { note: String::new(), pics: Vec::new(), events: Vec::new(), max_chunk: 0, screen: 0 };
     let mut gens: Vec<DecGen> = Vec::new();
